@@ -85,14 +85,41 @@ def run(env, rep):
         for f in sorted(working):
             st = [t for t in p if t[0] == "store" and t[1] == f]
             rm = [t for t in p if t[0] == "mut" and t[1] == "remove" and t[2] in keyed_fields]
-            ok = len(st) == 1 and len(rm) == 1 and re.match("^&?" + CSID_PARSED + "$", rm[0][3][0]) is not None and ("unwrap_or" in st[0][2] or "remove" in st[0][2])
+            fin = dict([t for t in p if t[0] == "final"][-1][1]) if [t for t in p if t[0] == "final"] else {}
+            # the key: the csid parsed from this chunk, or the chunk_stream_id of the header taken from previous_headers under that
+            # csid (headers are stored under their own csid: C06 R3, reused as R3 below)
+            key_ok = len(rm) == 1 and (re.match("^&?" + CSID_PARSED + "$", rm[0][3][0]) is not None or
+                                       re.match(r"^&?\*?HashMap::remove\(load\(\*?load\(self\)\.previous_headers\)," + CSID_PARSED + r"\) as Some\.0\.chunk_stream_id$", rm[0][3][0]) is not None)
+            none_path = any(t[0] == "when" and t[1].startswith("discr(HashMap::remove(load(*load(self).%s)" % rm[0][2]) and t[2] == "0" for t in p) if rm else False
+            val_ok = len(st) == 1 and ("unwrap_or" in st[0][2] or st[0][2].startswith("HashMap::remove(load(*load(self).%s)" % (rm[0][2] if rm else "?")) or
+                                       (none_path and fin.get(f + ".len") == "0"))
+            ok = key_ok and val_ok
             rep.check("C16.R1", "chunk-start:%s" % f, ok, "%s is loaded from the keyed map under the csid parsed from this chunk (or starts empty)" % f,
                       "when a chunk starts %s is %s (keyed removals: %s); it must continue the partial payload of the chunk stream id just parsed, or start empty" % (
                           f, [t[2][:80] for t in st] or "left as it is", [(t[2], t[3][0]) for t in rm]), hdr.span)
     rep.floor("C16.R1.start", "Success paths of the basic-header stage", n_h, 2)
+    # (c) a keyed container is only ever touched one key at a time: anything that affects other chunk streams' entries
+    # (clear, drain, retain, replacing the whole map) loses or mixes the partial messages of streams that are not being parsed
+    ONE_KEY = {"insert", "remove", "get", "get_mut", "contains_key", "entry", "remove_entry", "get_or_insert_with"}
+    des_ty = m.de_adt["pretty"]
+    n_mut, bad_mut = 0, []
+    for b in prog.bodies.values():
+        if b.kind != "assoc" or not b.impl or b.impl.get("trait") is not None or b.impl["self_ty"] != des_ty or b.name == "new":
+            continue
+        ex = grammar.trace(env, b.key, "r")
+        for p in ex.paths:
+            for t in p:
+                if t[0] == "mut" and t[2] in keyed_fields:
+                    n_mut += 1
+                    if t[1].split("::")[-1] not in ONE_KEY:
+                        bad_mut.append("%s calls %s on %s" % (b.name, t[1], t[2]))
+                if t[0] == "store" and t[1] in keyed_fields:
+                    bad_mut.append("%s replaces %s as a whole" % (b.name, t[1]))
+    if keyed_fields:
+        rep.check("C16.R1", "keyed-containers-touched-one-key-at-a-time", n_mut >= 2 and not bad_mut,
+                  "%s is only accessed through single-key operations (%d call sites on the replayed paths)" % (keyed_fields, n_mut),
+                  "a container holding partial messages per chunk stream is changed as a whole: %s (a chunk on one chunk stream must not affect what was received on the others)" % sorted(set(bad_mut)), pay.span)
     # ------------------------------------------------------------------ R2
-    for p in htr:
-        pass
     deliver_ok, n_d = True, 0
     why = []
     for p in ptr:
@@ -111,4 +138,4 @@ def run(env, rep):
     from ..framework import PrefixReport
     from . import C06
     if wants(rep, "C16.R3"):
-        C06.run(env, PrefixReport(rep, "C06.", "C16.R3.", only=("C06.R2",)))
+        C06.run(env, PrefixReport(rep, "C06.", "C16.R3.", only=("C06.R2", "C06.R3")))
